@@ -85,6 +85,9 @@ def _dict_from_table(pm, cname, fn):
                 return eq
             if isinstance(t.ops[0], ast.NotEq):
                 return not eq
+            if isinstance(t.ops[0], (ast.Is, ast.IsNot)) and (t.left.value is None or t.comparators[0].value is None):
+                same = t.left.value is None and t.comparators[0].value is None
+                return same if isinstance(t.ops[0], ast.Is) else not same
         if isinstance(t, ast.Compare) and len(t.ops) == 1 and isinstance(t.left, ast.Constant) \
                 and isinstance(t.ops[0], (ast.In, ast.NotIn)) and isinstance(t.comparators[0], (ast.Tuple, ast.List, ast.Set)) \
                 and all(isinstance(x, ast.Constant) for x in t.comparators[0].elts):
@@ -365,6 +368,8 @@ def r_agg(E):
                 if c not in covered:
                     if d == "fabrication_footprints" and c == "Network":
                         continue
+                    if d not in views:
+                        continue      # (the view itself is undecided: reported above)
                     res.findings.append(Finding(
                         "R-AGG", f"COVER {c}.{attr}",
                         f"{c} computes {attr} but no category of System.{d} iterates a collection that can contain a {c}: "
